@@ -178,6 +178,14 @@ def grid_items(rng, npool, nbin, rot, tier="quick", classes=True):
         for o in FREL:
             add(o, [t, t], ["i32"], [["local.get", 0], ["local.get", 1], ["%s.%s" % (t, o)]])
             calls += [{"op": "call", "inst": 1, "export": o, "args": [val(t, a), val(t, b)]} for a in PB[t][::2] for b in PB[t]]
+            # the comparison consumed directly by eqz / br_if / if / select (NaN operands make "not less" differ from "greater or equal")
+            cmp_ = [["local.get", 0], ["local.get", 1], ["%s.%s" % (t, o)]]
+            for cons, body in (("eqz", cmp_ + [["i32.eqz"]]),
+                               ("brif", [["block", "i32"], ["i32.const", b32(7)]] + cmp_ + [["br_if", 0], ["drop"], ["i32.const", b32(9)], ["end"]]),
+                               ("if", cmp_ + [["if", "i32"], ["i32.const", b32(7)], ["else"], ["i32.const", b32(9)], ["end"]]),
+                               ("select", [["i32.const", b32(7)], ["i32.const", b32(9)]] + cmp_ + [["select"]])):
+                add("%s_%s" % (o, cons), [t, t], ["i32"], body)
+                calls += [{"op": "call", "inst": 1, "export": "%s_%s" % (o, cons), "args": [val(t, a), val(t, b)]} for a in CL[::3] for b in CL[::2]]
         mod = {"types": types, "funcs": funcs, "exports": exports}
         for j in range(0, len(calls), 500):
             items.append({"id": "g%s_%d" % (t, j // 500), "module": mod, "script": [INST] + calls[j:j + 500]})
@@ -195,6 +203,14 @@ def grid_items(rng, npool, nbin, rot, tier="quick", classes=True):
         name = op.replace(".", "_")
         funcs.append({"type": types.index(t), "locals": [], "body": [["local.get", 0], [op], ["end"]]})
         exports.append({"name": name, "kind": "func", "idx": len(funcs) - 1})
+        if "trunc_f" in p[1] and "sat" not in p[1]:
+            # the trap of a trapping truncation does not depend on whether its result is used
+            t2 = {"p": [fr], "r": ["i32"]}
+            if t2 not in types:
+                types.append(t2)
+            funcs.append({"type": types.index(t2), "locals": [], "body": [["local.get", 0], [op], ["drop"], ["i32.const", b32(1)], ["end"]]})
+            exports.append({"name": name + "_dropped", "kind": "func", "idx": len(funcs) - 1})
+            calls += [{"op": "call", "inst": 1, "export": name + "_dropped", "args": [val(fr, a)]} for a in dict.fromkeys(P[fr][:12] + boundary_pool(fr)[::3])]
         src = P[fr] + (boundary_pool(fr) if fr in ("f32", "f64") and "trunc" in op else []) + \
             (tie_pool(32 if fr == "i32" else 64, tier) if fr in ("i32", "i64") and "convert" in op else []) + \
             (demote_pool() if "demote" in op else [])
